@@ -33,13 +33,19 @@ def generate(seed, mode="c01", base_cfg=None):
     if mode == "c05":
         base_cfg = dict(base_cfg or {})
         base_cfg.update({"adv_members": ch.chance(1, 2), "bundles": True, "n_bundles": ch.rint(1, 3, "c05nb")})
+    anon_focus = False
+    if mode == "c02" and ch.chance(1, 4):
+        # a share of the runs looks at anonymous-bundle connections (their sites are rare otherwise)
+        anon_focus = True
+        base_cfg = dict(base_cfg or {})
+        base_cfg.update({"bundles": True, "anon": True, "n_bundles": ch.rint(1, 3, "c02nb")})
     cfg = gen.draw_cfg(ch, base_cfg)
     ops, mids, g = gen.gen_design(ch, cfg)
     top = mids[-1]
     adv = 0
     planted = None
     if mode == "c02":
-        r = plant.plant(ch, ops, top)
+        r = plant.plant(ch, ops, top, prefer=["width_anon_member", "extra_member", "bad_member"] if anon_focus else None)
         if r is not None:
             ops, cls, site = r
             planted = [cls, site]
